@@ -101,17 +101,25 @@ def step (st : St) (toks : List String) : St × List Issue :=
         | _, _ => (st, [⟨.parse, "o2r"⟩])
       | _ => (st, [⟨.parse, "o2r"⟩])
     | _, _, _ => (st, [⟨.parse, "o2r"⟩])
-  | ["est", c, qos, shares, quota, period, lim, adj, cr, cl, mr, ml] =>
+  | ["est", c, qos, shares, quota, period, lim, adj, cr, cl, mr, ml, om, ol] =>
     match c.toNat?, qos.toNat?, shares.toNat?, quota.toNat?, period.toNat?, lim.toNat?, adj.toInt?,
-          cr.toInt?, cl.toInt?, mr.toInt?, ml.toInt? with
+          cr.toInt?, cl.toInt?, mr.toInt?, ml.toInt?, om.toInt?, ol.toInt? with
     | some c, some qos, some shares, some quota, some period, some lim, some adj,
-      some cr, some cl, some mr, some ml =>
+      some cr, some cl, some mr, some ml, some om, some ol =>
       let (a, b, d, e) := estimate c qos shares quota period lim adj
       let f : Option Nat → Int := fun o => match o with | some n => n | none => -1
-      if (f a, f b, f d, f e) ≠ (cr, cl, mr, ml) then
-        (st, [⟨.model, s!"estimate model={f a},{f b},{f d},{f e}"⟩])
-      else (st, [])
-    | _, _, _, _, _, _, _, _, _, _, _ => (st, [⟨.parse, "est"⟩])
+      let is : List Issue := if (f a, f b, f d, f e) ≠ (cr, cl, mr, ml) then
+        [⟨.model, s!"estimate model={f a},{f b},{f d},{f e}"⟩] else []
+      -- the property's own clauses on the implementation's values, against what the kubelet encoded:
+      -- the CPU limit of a non-Guaranteed container is exact from 10 mCPU upwards (a Guaranteed one copies its request)
+      let is := if ol ≥ 10 ∧ qos ≠ 0 ∧ cl ≠ ol then is ++ [⟨.property, s!"CPU limit {ol}m encoded as quota/period reconstructed as {cl}"⟩] else is
+      -- the CPU request is within 1 mCPU (2 at the minimum-shares floor) of the encoded one
+      let is := if om ≥ 0 ∧ ((if cr < 0 then 0 else cr) - om).natAbs > (if shares ≤ 2 then 2 else 1) then
+        is ++ [⟨.property, s!"CPU request {om}m encoded as {shares} shares reconstructed as {cr}"⟩] else is
+      -- the memory limit is the cgroup's
+      let is := if lim > 0 ∧ ml ≠ (lim : Int) then is ++ [⟨.property, s!"memory limit {lim} reconstructed as {ml}"⟩] else is
+      (st, is)
+    | _, _, _, _, _, _, _, _, _, _, _, _, _ => (st, [⟨.parse, "est"⟩])
   | _ => (st, [⟨.parse, "unknown op"⟩])
 
 def main : IO UInt32 := Driver.run step {} (fun st => s!"oomtables={st.nontrivial}")
